@@ -14,6 +14,7 @@
 -/
 import MultiModel.Gen.LayoutGen
 import MultiProofs.TieTactic
+import MultiProofs.TieLemmas
 import MultiModel.Iter
 
 namespace Multi.GenTie
@@ -137,13 +138,17 @@ theorem V_sliced_aux_tie (a c : Int) : V_sliced_aux ⟨b, d :: d1 :: sub⟩ a c 
 /-- the two bound assertions of `sliced_aux_` are the model's `slicedAsserts`; the third (null base with a non-zero
     pointer offset) constrains the pointer, which the model does not carry -/
 theorem V_sliced_aux_asserts_tie (a c : Int) :
-    V_sliced_aux_asserts ⟨b, d :: d1 :: sub⟩ a c =
-      (View.slicedAsserts ⟨b, d :: d1 :: sub⟩ a c && ((b != 0) || (a * d.stride - d.offset == 0))) := by
-  tie_simp [V_sliced_aux_asserts, View.slicedAsserts, Bool.and_assoc]
+    (V_sliced_aux_asserts ⟨b, d :: d1 :: sub⟩ a c = true) ↔
+      (View.slicedAsserts ⟨b, d :: d1 :: sub⟩ a c = true ∧ (b ≠ 0 ∨ a * d.stride - d.offset = 0)) := by
+  simp only [V_sliced_aux_asserts, View.slicedAsserts, hd_cons, tl_cons, Bool.and_eq_true, Bool.or_eq_true, beq_iff_eq,
+    bne_iff_ne, ne_eq, Bool.and_true, decide_eq_true_eq]
+  grind
 theorem V_strided_aux_tie (s : Int) : V_strided_aux ⟨b, d :: d1 :: sub⟩ s = View.strided ⟨b, d :: d1 :: sub⟩ s := by
   tie_simp [V_strided_aux, View.strided]
 theorem V_range_tie (v : View) (e : Ext) : V_range v e = View.range v e.first e.last := by
-  tie_simp [V_range, View.range, Ext.size]
+  have h1 : e.first + (e.last - e.first) = e.last := by omega
+  have h2 : e.last - e.first + e.first = e.last := by omega
+  simp [V_range, View.range, Ext.size, h1, h2]
 theorem V_blocked_tie (v : View) (a c : Int) : V_blocked v a c = View.blocked v a c := by
   tie_simp [V_blocked, View.blocked]
 theorem V_halved_aux_tie (v : View) : V_halved_aux v = View.halved v := by
@@ -158,7 +163,7 @@ theorem V_chunked_aux_tie (c : Int) : V_chunked_aux ⟨b, d :: d1 :: sub⟩ c = 
   tie_simp [V_chunked_aux, View.chunked, View.size]
 theorem V_is_flattable_tie : V_is_flattable ⟨b, d :: d1 :: sub⟩ = View.isFlattable ⟨b, d :: d1 :: sub⟩ := by
   simp only [V_is_flattable, View.isFlattable, hd_cons, tl_cons]
-  congr
+  first | (congr; done) | (rw [int_beq_comm d1.nelems d.stride]; congr; done) | (rw [int_beq_comm d.stride d1.nelems]; congr; done)
 theorem V_flatted_tie : V_flatted ⟨b, d :: d1 :: sub⟩ = View.flatted ⟨b, d :: d1 :: sub⟩ := by
   tie_simp [V_flatted, View.flatted]
 theorem V_broadcasted_tie (v : View) (junk : Int) : V_broadcasted v junk = View.broadcasted v junk := by
@@ -266,7 +271,9 @@ theorem wrappers_are_the_code (v : View) (a c : Int) (e : Ext) (args : List Arg)
     S_bracket v a = v.index a := by
   refine ⟨rfl, rfl, rfl, rfl, rfl, rfl, rfl, rfl, rfl, rfl, rfl, rfl, rfl, rfl, rfl, rfl, rfl, rfl, rfl, rfl, ?_, rfl, rfl, rfl, rfl, rfl, rfl,
     rfl, rfl, rfl, rfl, rfl⟩
-  simp [S_range, View.range, Ext.size]
+  have h1 : e.first + (e.last - e.first) = e.last := by omega
+  have h2 : e.last - e.first + e.first = e.last := by omega
+  simp [S_range, View.range, Ext.size, h1, h2]
 
 theorem S_flatted_tie (b : Int) (d d1 : Dim) (sub : Layout) : S_flatted ⟨b, d :: d1 :: sub⟩ = View.flatted ⟨b, d :: d1 :: sub⟩ := by
   tie_simp [S_flatted, View.flatted]
@@ -359,7 +366,7 @@ theorem assertions_are_the_code (b : Int) (d d1 : Dim) (sub : Layout) :
     let v : View := ⟨b, d :: d1 :: sub⟩
     let w : View := ⟨b, [d]⟩
     (∀ i, V_at_aux_asserts v i = v.indexAssert i ∧ V_bracket_asserts v i = v.indexAssert i ∧ V1_at_aux_asserts w i = w.indexAssert i) ∧
-    (∀ a c, V_sliced_aux_asserts v a c = (v.slicedAsserts a c && ((b != 0) || (a * d.stride - d.offset == 0)))) ∧
+    (∀ a c, V_sliced_aux_asserts v a c = true ↔ (v.slicedAsserts a c = true ∧ (b ≠ 0 ∨ a * d.stride - d.offset = 0))) ∧
     (∀ n, V_partitioned_aux_asserts v n = v.partitionedAsserts n ∧ V1_partitioned_aux_asserts w n = w.partitionedAsserts n) ∧
     (L_extension_asserts (d :: sub) = d.extAsserts) ∧
     (∀ n m, (L_scale_asserts (d :: sub) n m && Layout.scaleAsserts sub n m) = Layout.scaleAsserts (d :: sub) n m) := by
